@@ -34,6 +34,14 @@ checks = {
     "C10": dict(engine="inputmc", cat="exploration", tech="small-scope exhaustive enumeration of (deployment groups, manifest) pairs, version triples and manifest field mutations against a set-theoretic oracle, through the real validation functions and manager.validateRequest (overlay harness)",
                 text="accept <=> oracle in both directions for every pair of the grammar (splits, merges, reorderings, near-miss units, endpoint kinds); version check over all (on-chain version, update events, manifest) triples; every single-field mutation changes the hash and every JSON key order leaves it unchanged.", ref="6 C10",
                 note="trusted base: encoding/json, sha256; the update-event handling of manager.run is transcribed in the in-package harness and guarded by a source-text check (exit 2 on drift)"),
+    "C08": dict(engine="chainmc", cat="model_checking", tech="exhaustive small-scope comparison of GroupSpec.MatchRequirements with a set-theoretic oracle + explicit-state BFS over histories in which attestations and provider records change between bids",
+                text="186,624 requirement/own-attribute/auditor-list/attestation combinations agree with the statement's oracle; on every accepted CreateBid of S-attr / S-attr-leased the pre-state satisfies every admission condition; every accepted UpdateProvider leaves attributes covering all of the provider's active leases.", ref="6 C08"),
+    "C09": dict(engine="inputmc", cat="exploration", tech="exhaustive enumeration of certificate catalogue x chain state x route x path variables; real TLS handshakes against the real rest.NewServer handler/TLS config; real x/cert keeper and querier behind the query client",
+                text="For every certificate kind (genuine, forged same CN+serial, revoked, unknown, expired, not-yet-valid, wrong usage, chains, issuer CN mismatch, non-bech32 CN) x on-chain state x every route x path variables of both tenants: a request is authenticated as X only if the presented leaf is byte-identical to X's valid on-chain certificate inside its validity with client-auth usage, and every lease/deployment id reaching the provider clients has Owner == authenticated CN and Provider == this provider.", ref="6 C09",
+                note="trusted base: crypto/tls proof of key possession, crypto/x509; validity windows are placed years away from time.Now()"),
+    "C11": dict(engine="inputmc", cat="exploration", tech="exhaustive enumeration of lease ids x manifest grammar x provider settings through the real kube builders and the real client.Deploy against client-go fake clientsets; semantic NetworkPolicy model",
+                text="Every object produced by the builders and found in the fake cluster after Deploy / re-Deploy is in (or selects only) the lease namespace; containers unprivileged, no escalation, no service-account token, limits == leased, 0 < requests <= limits; lidNS injective and DNS-1123 valid over the colliding id set; network policies admit outside ingress only from the ingress controller or to globally exposed ports and no egress to private ranges outside the namespace.", ref="6 C11",
+                note="trusted base: Kubernetes enforcement of the generated objects; client-go fake tracker (extended with DeleteCollection); one known finding (stale per-service policy after update) is listed in known_findings.json"),
 }
 
 m = {
